@@ -106,3 +106,10 @@ THEOREMS_C05B = ["C05b." + t for t in """get_error_rowwise rowWise_of_pointwise 
 batch_is_concat_of_alone_forward0 batch_permutation_equivariance_forward0 adaptive_mix_row_independence_partial row_independence_forward1_partial row_independence_forward2_partial
 pulay_same_fixed_points sp2_batch_rowwise sp2_batch_permutation adaptive_mix_batch_coupling_witness adaptive_mix_batch_small_trace_witness adaptive_mix_small_trace_oracle_realised
 pulay_batch_coupling_witness row_independence_needs_rowwise""".split()]
+THEOREMS_C17B = ["C17b." + t for t in """detectAlone_eq_detectOne crossing_isolation crossing_isolation_between_batches crossing_rows_are_involutions crossing_rows_not_involution_witness
+row_eq_hop_buildSwap wrong_index_map_witness wrong_index_map_invisible_without_holdoff wrong_index_map_invisible_no_history none_iff none_iff_explicit""".split()]
+THEOREMS_C09C = ["C09c." + t for t in "histTerm_sum propagate_sum propagateKSA_sum aux_invariant_step aux_invariant_step_ksa aux_invariant_ksa_defect".split()]
+THEOREMS_C16B = ["C16b." + t for t in """rpa_product_selfadjoint rpa_eigenvalues_positive rpa_eigenvalues_real_pos rpa_of_cis_when_B_zero rpa_reduces_to_cis_when_B_zero rpa_pair_structure
+rpa_pair_common_flip rpa_norm_blind_to_X_flip flip_X_only_breaks_solution flip_X_only_stable rpa_pair_norm_pos exists_min_eigenpair card_le_card_eigenvalues_le sqrtMat_isSymm sqrtMat_mul_self
+symProd_eig_to_rpa rpa_eig_to_symProd symProd_charpoly symProd_eigenvalue_isRPAEig symProd_eigenvalues_pos rpa_lowest_variational rpa_lowest_le_cis_lowest rpa_count_ge_cis_count
+rpa_le_cis_all_roots rpa_code_amplitudes ex_sum_posDef ex_diff_posDef""".split()]
